@@ -179,16 +179,19 @@ def check_props(prop_id):
     text = open(src).read()
     info["theorems"] = re.findall(r"^\s*(?:Theorem|Corollary)\s+([A-Za-z0-9_']+)", text, re.M)
     with tempfile.TemporaryDirectory(prefix="pgaverif_") as d:
+        # a copy with Print Assumptions appended for EVERY theorem, so that none is overlooked
+        tmp = os.path.join(d, prop_id + ".v")
+        with open(tmp, "w") as f:
+            f.write(text + "\n" + "".join("Print Assumptions %s.\n" % t for t in info["theorems"]))
         r = subprocess.run(["timeout", "900", "coqc", "-Q", COQ + "/theories", "PGA", "-Q", COQ + "/gen", "PGAgen",
-                            "-Q", COQ + "/props", "PGAprops", "-o", os.path.join(d, "p.vo"), src],
-                           capture_output=True, text=True)
+                            "-Q", d, "PGAprops", tmp], capture_output=True, text=True)
     info["ok"] = r.returncode == 0
     info["log"] = (r.stdout + r.stderr)[-3000:] if r.returncode != 0 else ""
     # Print Assumptions output: either "Closed under the global context" or "Axioms:\n name : type"
-    closed = len(re.findall(r"Closed under the global context", r.stdout))
-    axioms = sorted(set(re.findall(r"^([A-Za-z_][A-Za-z0-9_.']*)\s*:", r.stdout, re.M)) - {"Axioms"}) \
-        if "Axioms:" in r.stdout else []
-    info["assumptions"] = {"closed": closed, "axioms": axioms}
+    tail = r.stdout
+    closed = len(re.findall(r"Closed under the global context", tail))
+    axioms = sorted(set(re.findall(r"^([A-Za-z_][A-Za-z0-9_.']*)\s*:", tail, re.M)) - {"Axioms"}) if "Axioms:" in tail else []
+    info["assumptions"] = {"closed_under_global_context": closed, "axioms": axioms}
     info["wall_s"] = round(time.time() - t0, 2)
     return info
 
